@@ -39,6 +39,10 @@ def cases(draw):
         "designator": draw(st.sampled_from(product.DESIGNATORS)),
         "facility_lengths": [draw(st.integers(66, 200)) for _ in range(4)],
         "instant": draw(common.instants()),
+        # several attitude samples may carry the same time stamp; the scene centre may lie
+        # minutes after the first orbit point (in the next day / year when that is late on 31 Dec)
+        "repeat_attitude_times": draw(st.sampled_from([False, False, True])),
+        "scene_center_offset_ms": draw(st.sampled_from([0, 0, 600_000, 3_600_000])),
     }
     level = draw(st.sampled_from(["1.1", "1.5", "3.1"]))
     return {
